@@ -175,6 +175,11 @@ def run_graph_case(ctx, case) -> None:
 
 def additive_float(rng, n, style):
     w = [rng.uniform(-3, 7) if style != "pos" else rng.random() for _ in range(n)]
+    if style == "int_additive":
+        w = [float(rng.randint(-4, 6)) for _ in range(n)]            # exactly additive, surplus exactly 0
+    if style == "cancelling_exact" and n >= 2:
+        w = [rng.choice([1.0, 2.0, 0.5, 0.25, 3.0]) * rng.choice([1, -1]) for _ in range(n - 1)]
+        w.append(-sum(w))                     # dyadic stand-alone values that cancel EXACTLY (their sum is 0.0)
     if style == "cancelling" and n >= 2:
         w = [rng.choice([0.1, 0.2, 0.3, 0.7, 1.1, rng.random()]) * rng.choice([1, -1]) for _ in range(n - 1)]
         w.append(-sum(w))                     # stand-alone values of mixed sign that cancel: sum ~ 0, sum of |.| is not
@@ -250,8 +255,14 @@ def run(ctx) -> None:
                     pass
                 ctx.count("poison_calls")
         elif r in (3, 4):
-            style = rng.choice(["forward", "reverse", "shuffled", "np_order", "pos", "cancelling", "cancelling"])
-            run_table_case(ctx, {"family": f"additive_{style}", "values": additive_float(rng, n, style)})
+            style = rng.choice(["forward", "reverse", "shuffled", "np_order", "pos", "cancelling", "cancelling", "cancelling_exact", "int_additive"])
+            vals_ = additive_float(rng, n, style)
+            if style in ("cancelling_exact", "int_additive") and rng.random() < 0.5:
+                # the same stand-alone values plus a genuine surplus (regular regime)
+                sur = gen._closure_max(n, [float(rng.randint(0, 3)) if popcount(s) > 1 else 0.0 for s in range(1 << n)])
+                vals_ = [a + b for a, b in zip(vals_, sur)]
+                style += "_plus_surplus"
+            run_table_case(ctx, {"family": f"additive_{style}", "values": vals_})
         elif r == 5:
             k = rng.randint(1, 40)
             base = additive_float(rng, n, "forward")
